@@ -9,7 +9,7 @@ import (
 // Name pools are deliberately tiny so that duplicates, prefixes and
 // concatenation collisions are the norm.
 var typeNamePool = []string{"a", "b", "ab", "a_b", "a-b", "t1", "t2", "author", "authors", "articles", "users", "c", "bc", "x9", "café", "A", "Users", "Ab"}
-var fieldNamePool = []string{"a", "b", "ab", "a_b", "a-b", "author", "authors", "f1", "f2", "name", "title", "c", "bc", "rel", "z", "n0", "created-at", "k_1", "Name", "AB", "Z", "prénom", "名前", "first name"}
+var fieldNamePool = []string{"a", "b", "ab", "a_b", "a-b", "author", "authors", "f1", "f2", "name", "title", "c", "bc", "rel", "z", "n0", "created-at", "k_1", "Name", "AB", "Z", "prénom", "名前", "first name", "type", "meta"}
 
 func genDistinctNames(r *RNG, pool []string, n int) []string {
 	p := r.Perm(len(pool))
